@@ -46,6 +46,12 @@ def font_spec(k: int) -> dict:
     nested composite, mixed, empty; anchors and categories.  Sibling 1 moves coordinates, gives a
     component a 2x2 and keeps its colour mapping on a glyph; sibling 2 un-nests `nested`, drops the
     component of `mixed`, has no colour information at all and carries a seventh glyph, uni25CC."""
+    if k == 3:
+        # sibling 0 as a font whose colour layers were "exploded" before: it carries the explicit
+        # colorLayers key (only the colour-layer filter is given this sibling)
+        spec = font_spec(0)
+        spec["lib"][F + "colorLayers"] = {"a": [("a", 0), ("acutecomb", 1)]}
+        return spec
     d = 10 * k
     tri = [[(0, 0, "line"), (100.5 + d, 0, "line"), (40, 80.5 + d, "line")]]
     # two overlapping cubic contours; the first has the larger bounding-box origin (sortContours moves it)
@@ -450,6 +456,8 @@ class C14(Property):
         cfg, spec, mode, module = c["filter"], c["spec"], c["mode"], c["module"]
         interp = CONFIG[cfg][2]
         targets = INTERP_TARGETS if interp else PLAIN_TARGETS
+        if CONFIG[cfg][1] == "ExplodeColorLayerGlyphs":
+            targets = PLAIN_TARGETS + [[3]]
         viols = Viols()
         ctrs = {k: 0 for k in ("invocations", "histories", "raised", "glyphs_changed", "glyphs_added",
                                "glyphs_removed", "reported_changed", "reported_added", "reported_removed",
